@@ -3,13 +3,13 @@ CHECK = {
     "gen": [{"pkg": "extract_c08", "out": "lean/ClusterVerif/Gen/C08.lean"}],
     "suites": [
         # real encode -> real decode of every record x format, own field-by-field dump on both sides
-        suite("roundtrip", "c08", 8000, 200000, stdin=True, args=["-suite", "rt"]),
+        suite("roundtrip", "c08", 8000, 150000, stdin=True, args=["-suite", "rt"]),
         # the repository's Pin.Equals / PinOptions.Equals on triples of related pins
         suite("equals", "c08", 2000, 30000, stdin=True, args=["-suite", "eq"]),
         # String/FromString/JSON forms of TrackerStatus, PinMode, PinType; the parsers on arbitrary words
         suite("strings", "c08", 2000, 20000, stdin=True, args=["-suite", "str"]),
         # SEARCH (not proof): mutated valid encodings and random bytes into every decoder entry point, under recover()
-        suite("decoders", "c08", 10000, 600000, stdin=True, args=["-suite", "fuzz"], timeout={"quick": 600, "thorough": 2400}),
+        suite("decoders", "c08", 10000, 350000, stdin=True, args=["-suite", "fuzz"], timeout={"quick": 600, "thorough": 2400}),
     ],
     "lean_sources": ["ClusterVerif/Model/C08.lean", "ClusterVerif/Spec/C08.lean", "ClusterVerif/Lemmas/C08.lean",
                      "ClusterVerif/Gen/C08.lean"],
